@@ -104,13 +104,20 @@ func c18Name(i int) string {
 // buildC18 makes entities for an issuer function: iss[i] = -1 none, 0..n-1 entity, n = itself marker unused, n+1 = undefined name.
 func buildC18(n int, iss []int, variant int) World {
 	var w World
-	dirs := []string{"", "ca/", "ca/sub/", "x/y/z/", "pki.v2/", "Mixed.Case/inner.d/"}
+	dirs := []string{"", "ca/", "ca/sub/", "x/y/z/", "pki.v2/", "Mixed.Case/inner.d/", ".hidden/", "a/.git-like/b/"}
 	exts := []string{".yaml", ".yml", ".json", ".YAML", ".Yml", ".JSON", ".yAmL"}
 	for i := 0; i < n; i++ {
 		e := core.Entity{File: dirs[(i+variant)%len(dirs)] + c18Name(i) + exts[(i*3+variant)%len(exts)],
 			Subject: []core.RDN{{Key: "CN", Value: "C18 " + c18Name(i)}}}
 		if (i+variant)%3 == 0 {
 			e.Alias = "alias of " + c18Name(i)
+		}
+		if (i+variant)%4 == 1 {
+			// a configured serial number has nothing to do with the alias
+			e.Serial = core.Int64P(int64(7 + (i+variant)%3))
+		}
+		if (i*5+variant)%11 == 0 {
+			e.File = dirs[(i+variant)%len(dirs)] + "." + c18Name(i) + exts[(i*3+variant)%len(exts)] // dot-file
 		}
 		w.Ents = append(w.Ents, e)
 	}
